@@ -315,6 +315,20 @@ func permanentInPlaceProbe(given map[string]interface{}) bool {
 	return true
 }
 
+// guardLog records, for the native guards of the case being run, whether each call accepted its
+// candidate (returned bindings without an error), in call order.
+var guardLog []bool
+
+// nativeGuard is nativeAction with the call logged.
+func nativeGuard(p *gen.Prog) *core.FuncAction {
+	inner := nativeAction(p)
+	return &core.FuncAction{F: func(ctx context.Context, given match.Bindings, props core.StepProps) (*core.Execution, error) {
+		exe, err := inner.F(ctx, given, props)
+		guardLog = append(guardLog, err == nil && exe != nil && exe.Bs != nil)
+		return exe, err
+	}}
+}
+
 // nativeAction compiles a program to a Go closure with the same meaning as Sheens/ES.lean Prog.run.
 func nativeAction(p *gen.Prog) *core.FuncAction {
 	return &core.FuncAction{F: func(ctx context.Context, given match.Bindings, props core.StepProps) (*core.Execution, error) {
@@ -439,7 +453,7 @@ func buildSpec(ctx context.Context, d *gen.SpecD) (*core.Spec, error) {
 				b := &core.Branch{Pattern: gen.DeepCopy(bd.Pattern), Target: bd.Target}
 				if bd.Guard != nil {
 					if bd.Guard.Lang == "native" {
-						b.Guard = nativeAction(bd.Guard)
+						b.Guard = nativeGuard(bd.Guard)
 					} else {
 						b.GuardSource = &core.ActionSource{Interpreter: "ecmascript", Source: bd.Guard.JS()}
 					}
@@ -605,13 +619,24 @@ func runOneWalk(op string, id int, c gen.WalkCase) (line walkLine) {
 		}
 	}()
 	var obs map[string]interface{}
+	guardStops, guardCalls := true, 0
 	if op == "step" {
 		var pending interface{}
 		if len(msgs) > 0 {
 			pending = msgs[0]
 			line.Pending = c.Msgs[0]
 		}
+		guardLog = guardLog[:0]
 		stride, err := spec.Step(ctx, st, pending, ctl, props)
+		// the first branch whose guard returns bindings decides: within one step no guard runs
+		// after a guard has accepted
+		guardStops = true
+		for i, acc := range guardLog {
+			if acc && i != len(guardLog)-1 {
+				guardStops = false
+			}
+		}
+		guardCalls = len(guardLog)
 		obs = map[string]interface{}{"stride": strideJSON(stride), "err": nil}
 		if err != nil {
 			obs["err"] = normErr(err.Error())
@@ -639,6 +664,10 @@ func runOneWalk(op string, id int, c gen.WalkCase) (line walkLine) {
 		untouched = false
 	}
 	line.Probe = map[string]interface{}{"untouched": untouched, "fresh": fresh}
+	if op == "step" {
+		line.Probe["guardStopsAtFirstAccept"] = guardStops
+		line.Probe["guardCalls"] = guardCalls
+	}
 	if c.Profile == "permanent" && c.St.Bs != nil {
 		line.Probe["permanentInPlace"] = permanentInPlaceProbe(c.St.Bs)
 	}
